@@ -2,8 +2,9 @@
    Property theorems only; each is closed by a lemma of Lemmas*.v.  c ranges over all constructor arguments
    (equipment id, version, description of Unicode scalar values, any interface list, broadcast flag), ins over
    all histories of the socket (datagrams with what json.loads makes of them, socket errors).
-   The pinned code violates the property in three ways (Refuted.v); the theorems below state what does hold,
-   with the exact guard that excludes each finding. *)
+   The code still violates the property in one way (Refuted.v: a description full of JSON-escaped characters
+   disables the responder although the identity fits); theorem 4 carries the exact guard.  The two other defects
+   found earlier were repaired in /repo (8298523, d6d9c1c): theorems 5 and 7 now hold without guard. *)
 From Coq Require Import List Arith ZArith NArith Bool Lia String.
 Import ListNotations.
 Require Import FV.Gen.C19 FV.C19.Model FV.C19.LemmasUtf8 FV.C19.LemmasJson FV.C19.Lemmas FV.C19.Refuted.
@@ -17,9 +18,9 @@ Theorem C19_source_facts :
   msg_values = [s2l "'node'"; s2l "port"; s2l "self.equipment_id"; s2l "self.firmware"; s2l "self.description"] /\
   getmsg_args = [s2l "self"; s2l "port"] /\
   firmware_prefix = s2l "FRAPPY " /\
-  loads_catches = [s2l "json.JSONDecodeError"] /\
-  filter_expr = s2l "'SECoP' not in request or request['SECoP'] != 'discover'" /\
-  broadcast_not_guarded_by_enabled = true /\
+  loads_catches = [s2l "ValueError"] /\
+  filter_expr = s2l "not isinstance(request, dict) or request.get('SECoP') != 'discover'" /\
+  broadcast_guarded_by_enabled = true /\
   server_passes_opened_interfaces = true /\ interfaces_registered_after_open = true /\
   tcp_port_parse_agrees = true /\
   budget_port = 65535 /\ (0 < MAX_MESSAGE_LEN)%Z /\ (0 < recv_bufsize)%nat /\ 0 < UDP_PORT.
@@ -82,13 +83,15 @@ Qed.
 
 (* 5. each announcement or answer is a good datagram: it announces a tcp port of the interface list handed over by
       the server, has at most 508 bytes, is valid UTF-8 and a JSON object carrying port, identity and description.
-      Guard: the responder is enabled or does not broadcast (finding C19/oversize-announcement-when-disabled,
-      C19_refuted_bounded_when_disabled) *)
-Theorem C19_sends_good_except_disabled_broadcast : forall c ins,
+      Full strength: every configuration, every history of the socket (a disabled responder sends nothing) *)
+Theorem C19_sends_good : forall c ins,
   wf_cfg c -> (forall p, In p (ports_of (c_ifaces c)) -> p <= 65535) ->
-  l_enabled (init c) = true \/ c_bcast c = false ->
   Forall (good_datagram c) (outs (run (init c) ins)).
 Proof. exact sends_good. Qed.
+
+Theorem C19_disabled_silent : forall c ins,
+  l_enabled (init c) = false -> outs (run (init c) ins) = [] /\ st (run (init c) ins) = NotListening.
+Proof. intros c ins. apply run_disabled_silent. Qed.
 
 (*    the ports announced are exactly those of the tcp interfaces in the list (in order); that the list holds the
       interfaces actually opened is the pair of source facts server_passes_opened_interfaces /
@@ -111,29 +114,29 @@ Theorem C19_is_request_meaning : forall data p,
   exists ms, p = PObj ms /\ lookup K_SECoP ms = Some (Some K_discover).
 Proof. exact is_request_spec. Qed.
 
-(* 7. keeps answering.  Full statement: every datagram leaves the responder listening.  Proved with the guard
-      "not a killer" (finding C19/killed-by-datagram, C19_refuted_survives): the responder survives a datagram iff
-      it is not invalid UTF-8, a JSON scalar, a JSON string containing SECoP or an array containing "SECoP" *)
-Theorem C19_survives_except_killers : forall l s data p a,
-  st s = Listening ->
-  (st (lstep l s (IRecv data p a)) = Listening <-> killer data p = false).
-Proof. intros l s data p a H. apply (survives_iff l s data p a H). Qed.
+(* 7. keeps answering, full strength: every datagram -- any bytes, any JSON value -- leaves the responder
+      listening *)
+Theorem C19_survives : forall l s data p a,
+  st s = Listening -> st (lstep l s (IRecv data p a)) = Listening.
+Proof. exact survives. Qed.
 
-(*    and over whole histories: after any sequence of datagrams none of which is a killer the responder listens
-      and has answered exactly the requests among them, in order *)
-Theorem C19_keeps_answering_except_killers : forall l ins,
-  l_enabled l = true -> Forall benign ins ->
+(*    and over whole histories: after any sequence of datagrams the responder listens and has answered exactly the
+      requests among them, in order; only a socket error (shutdown) ends the loop *)
+Theorem C19_keeps_answering : forall l ins,
+  l_enabled l = true -> Forall is_recv ins ->
   st (run l ins) = Listening /\ outs (run l ins) = outs (start l) ++ flat_map (reply l) ins.
 Proof. exact keeps_answering. Qed.
 
 (* non-vacuity: a description of 300 euro signs is cut to 140 characters (whole characters: 3 bytes each), the
-   messages have 508 bytes, a request from sender 2 is answered once per tcp port, other datagrams are not *)
+   messages have 508 bytes, a request from sender 2 is answered once per tcp port, other datagrams (an empty object,
+   invalid UTF-8, the JSON number 5) are neither answered nor fatal *)
 Definition demo_cfg : cfg :=
   {| c_eid := s2l "e"; c_version := s2l "v1"; c_desc := Some (repeat 8364 300);
      c_ifaces := [(s2l "tcp", 10767); (s2l "ws", 8010); (s2l "tcp", 1)]; c_bcast := false |}.
 Example C19_demo :
   let l := init demo_cfg in
-  let r := run l [IRecv (utf8_encode (s2l "{}")) (PObj []) 1; IRecv request_bytes request_parse 2] in
+  let r := run l [IRecv (utf8_encode (s2l "{}")) (PObj []) 1; IRecv [255] PBad 0; IRecv [53] PScalar 0;
+                  IRecv request_bytes request_parse 2] in
   (l_enabled l, List.length (l_desc l), l_ports l, st r, map (fun o => (fst o, blen (snd o))) (outs r))
   = (true, 140%nat, [10767; 1], Listening, [(DAddr 2, 508%Z); (DAddr 2, 504%Z)]).
 Proof. vm_compute. reflexivity. Qed.
@@ -145,13 +148,11 @@ Print Assumptions C19_char_boundary.
 Print Assumptions C19_disabled_iff.
 Print Assumptions C19_disabled_iff_identity_too_long_except_escapes.
 Print Assumptions C19_identity_too_long_disables.
-Print Assumptions C19_sends_good_except_disabled_broadcast.
+Print Assumptions C19_sends_good.
+Print Assumptions C19_disabled_silent.
 Print Assumptions C19_ports_opened.
 Print Assumptions C19_answers_iff.
 Print Assumptions C19_is_request_meaning.
-Print Assumptions C19_survives_except_killers.
-Print Assumptions C19_keeps_answering_except_killers.
-Print Assumptions C19_refuted_survives.
-Print Assumptions C19_refuted_survives_general.
+Print Assumptions C19_survives.
+Print Assumptions C19_keeps_answering.
 Print Assumptions C19_refuted_disabled_though_identity_fits.
-Print Assumptions C19_refuted_bounded_when_disabled.
